@@ -1537,6 +1537,9 @@ class CircuitTemplate(AbstractBaseTemplate):
 
             edge_dict = deepcopy(edge_dict)
 
+            # edges of one group are merged attribute by attribute: an edge without a weight gets the default weight
+            edge_dict.setdefault('weight', 1.0)
+
             # relabel variables according to variable map (accounting for vectorization)
             source_new = self._relabel_var(source, label_map)
             target_new = self._relabel_var(target, label_map)
